@@ -26,7 +26,7 @@ def field_default(f):
     return None
 
 
-def check_guards(fx, eng, rep, classes, res, only=None):
+def check_guards(fx, eng, rep, classes, res, only=None, typestate_only=False):
     asserts = []
     for cls in classes:
         m, sink = res[cls]
@@ -53,6 +53,8 @@ def check_guards(fx, eng, rep, classes, res, only=None):
                 priv = fn.get('access') == 2
                 rep.check(priv, 'C07.TYPE', '%s is private' % short(fn['name']), '%s:%s' % (fn['file'], fn['line']),
                           'access=private', 'release function is accessible to clients (access=%s): a grant could be released without its guard' % fn.get('access'))
+    if typestate_only:
+        return
     incs = ['dbgroup/lock/pessimistic_lock.hpp', 'dbgroup/lock/optimistic_lock.hpp', 'dbgroup/lock/mcs_lock.hpp']
     wres = run_witness(fx.flags, incs, asserts, compilers=('clang++', 'g++'))
     for tag, expr, _ in asserts:
